@@ -1,4 +1,5 @@
 """C37 Structured log lines are valid JSON — spec/http/LogJson.tla"""
+import os
 import random
 
 import vf
@@ -41,6 +42,13 @@ def cause_of(obs):
 
 def run(ctx):
     cfgs = ctx.pick(["LogJson_all2.cfg", "LogJson_base3.cfg"], ["LogJson_all2.cfg", "LogJson_all3.cfg", "LogJson_base4.cfg"])
+    # layer 1 = the current code; VERIF_L1_VARIANT=GoQuoteLiteral selects the pre-fix behaviour as layer 1 (old trees)
+    variant = os.environ.get("VERIF_L1_VARIANT", "fixed")
+    if variant != "fixed":
+        for cfg in cfgs + ["TraceLogJson.cfg"]:
+            f = ctx.specdir() + "/" + cfg
+            open(f, "w").write(open(f).read().replace('L1Variant = "fixed"', 'L1Variant = "%s"' % variant))
+    ctx.set("layer1_variant", variant)
     cases, seen = [], set()
     for cfg in cfgs:
         r = vf.mc(ctx, "LogJson", cfg, workers=min(vf.NCPU, 8), timeout=900, java_opts=["-Xmx6g"])
@@ -90,7 +98,7 @@ def run(ctx):
         rec.update({"bytes": c["bytes"], "lvl": c["lvl"], "sec": c["sec"], "nano": c["nano"]})
         recs.append(rec)
 
-    bad = []       # (obs, monitor, expected code points)
+    bad = []       # (obs, monitor, named deviation the written literal exhibits)
     drift = 0
     chunk = 40000
     for i in range(0, len(recs), chunk):
@@ -98,10 +106,10 @@ def run(ctx):
         tv = vf.tlc(ctx, "TraceLogJson", "TraceLogJson.cfg", workers=1, timeout=1500, java_opts=["-Xmx8g"])
         for b in tv.tagged("BAD"):
             for mon in b["monitors"]:
-                bad.append((obs[i + b["l"] - 1], mon, b["exp"]))
+                bad.append((obs[i + b["l"] - 1], mon, b["deviation"]))
         drift += len(tv.tagged("DRIFT"))
 
-    # layer-1 prediction of JSON validity (strconv.Quote model) against the trusted parser: DRIFT only
+    # layer-1 prediction of JSON validity against the trusted parser: DRIFT only
     l1diff = sum(1 for o in obs if "l1json" in cases[o["id"]] and cases[o["id"]]["l1json"] != (o["json"] and o["utf8"]))
 
     # attribution: a failing record is charged to the classes of its message that already fail, with the same
@@ -118,7 +126,7 @@ def run(ctx):
         if len(c["msg"]) == 0:          # the empty message fails: the failure does not depend on the message
             whatever.setdefault((mon, cz_of(o, mon), o["dest"]), o)
     groups = {}
-    for o, mon, exp in bad:
+    for o, mon, dev in bad:
         c = cases[o["id"]]
         d = o["dest"]
         blamed = sorted({k for k in c["msg"] if (k, mon, d) in alone})
@@ -129,17 +137,19 @@ def run(ctx):
         else:
             keys = [(mon, "+".join(c["msg"]), cz_of(o, mon), o)]
         for (m, k, cz, ex) in keys:
-            g = groups.setdefault((m, k, cz), {"n": 0, "dests": set(), "ex": ex})
+            g = groups.setdefault((m, k, cz), {"n": 0, "dests": set(), "ex": ex, "devs": set()})
+            g["devs"].add(dev)
             g["n"] += 1
             g["dests"].add(o["dest"])
     for (mon, cls, cz), g in sorted(groups.items()):
         ex = g["ex"]
         c = cases[ex["id"]]
         line = bytes.fromhex(ex["hex"])
-        ctx.violation({"monitor": mon, "class": cls, "cause": cz},
-                      "monitor %s fails for messages containing class %s (%d records, destinations %s) [cause: %s]; minimal input: "
+        dev = "+".join(sorted(g["devs"] - {"none"})) or "none"
+        ctx.violation({"monitor": mon, "class": cls, "cause": cz, "deviation": dev},
+                      "monitor %s fails for messages containing class %s (%d records, destinations %s) [cause: %s; named deviation: %s]; minimal input: "
                       "level %s, instant %d.%09d, message bytes %s (%r), mode %s -> the %s destination wrote %r; decoded message code "
-                      "points %s" % (mon, cls, g["n"], "/".join(sorted(g["dests"])), cz, c["lvl"], c["sec"], c["nano"], c["bytes"],
+                      "points %s" % (mon, cls, g["n"], "/".join(sorted(g["dests"])), cz, dev, c["lvl"], c["sec"], c["nano"], c["bytes"],
                                      bytes(c["bytes"]), c["mode"], ex["dest"], line, ex["msg"] if ex["json"] else "(not JSON)"))
 
     ctx.set("cases_enumerated", ntlc)
@@ -151,7 +161,7 @@ def run(ctx):
     ctx.set("drift_events", drift)
     ctx.set("l1_json_prediction_mismatches", l1diff)
     if drift:
-        ctx.note("%d records whose message literal is not strconv.Quote of the message (layer 1) — DRIFT, not a verdict" % drift)
+        ctx.note("%d records whose message literal differs from layer 1 (json.Marshal of the message, or the selected deviation) — DRIFT, not a verdict" % drift)
     good = [o for o in obs if o["json"] and len(cases[o["id"]]["msg"]) >= 2]
     if good:
         o = good[len(good) // 2]
